@@ -1,6 +1,8 @@
-/* Proof unit for C04 / XML: contracts + the REAL source/xml_parser.c (+ byte_buf.c, array_list.c for the small helpers
- * that are analysed inline) + one harness per function under contract.
- * aws_fatal_assert is an assert(0) stub: a reachable AWS_FATAL_ASSERT is a failed obligation ("never aborts"). */
+/* Proof unit for C04 / XML: contracts (contracts/xml_parser.h) + the REAL source/xml_parser.c (+ byte_buf.c, array_list.c for
+ * the small helpers that are analysed inline) + one harness per function under contract.
+ * aws_fatal_assert is an assert(0) stub: a reachable AWS_FATAL_ASSERT is a failed obligation ("never aborts").
+ * Each harness names the function it enforces in g_enf (ghost offsets are inputs for that function, Skolem outputs of
+ * every replaced contract) and chooses the ghost offsets / witnesses arbitrarily. */
 #include "contracts/xml_parser.h"
 
 void aws_fatal_assert(const char *cond_str, const char *file, int line) {
@@ -15,11 +17,83 @@ uint8_t g_va, g_vb;
 #include "source/array_list.c"
 #include "source/xml_parser.c"
 
-#define XGHOSTS() do { XML_GHOST_RESET(); g_on = false; g_slen = 1; g_sw = nondet_size_t(); g_j = nondet_size_t(); g_doc_off = nondet_size_t(); g_name_off = nondet_size_t(); } while (0)
+/* the callback contract must be addressable (BUILD_GUIDE: function-pointer contracts) */
+void *xml_keep_cb_contract = (void *)xml_cb_contract;
+
+#define XGHOSTS(f) do { XML_GHOST_RESET(); g_enf = (f); g_j = nondet_size_t(); g_ai = nondet_size_t(); g_doc_off = nondet_size_t(); \
+                        g_name_off = nondet_size_t(); g_decl_off = nondet_size_t(); g_slen = 1; g_sw = nondet_size_t(); } while (0)
 
 void h_advance_to_closing_tag(void) {
     struct aws_xml_parser *parser; struct aws_xml_node *node; struct aws_byte_cursor *out_body;
-    XGHOSTS();
+    XGHOSTS(XF_ADV);
     int r = s_advance_to_closing_tag(parser, node, out_body);
     if (r == 0) CANARY("closing tag found or empty element"); else CANARY("invalid xml reported");
+}
+void h_append_lengths(void) {
+    struct aws_byte_buf *to; const struct aws_byte_cursor *from;
+    XGHOSTS(XF_NONE);
+    int r = aws_byte_buf_append(to, from);
+    if (r == 0) CANARY("appended"); else CANARY("refused");
+}
+void h_node_next_sibling(void) {
+    struct aws_xml_parser *parser;
+    XGHOSTS(XF_SIB);
+    int r = s_node_next_sibling(parser);
+    if (r == 0) CANARY("root handled or no element"); else CANARY("error reported");
+}
+void h_node_traverse(void) {
+    struct aws_xml_node *node; aws_xml_parser_on_node_encountered_fn *cb; void *ud;
+    XGHOSTS(XF_TRAV);
+    int r = aws_xml_node_traverse(node, cb, ud);
+    if (r == 0) CANARY("parent closed"); else CANARY("error reported");
+}
+void h_node_as_body(void) {
+    struct aws_xml_node *node; struct aws_byte_cursor *out_body;
+    XGHOSTS(XF_BODY);
+    int r = aws_xml_node_as_body(node, out_body);
+    if (r == 0) CANARY("body read"); else CANARY("error reported");
+}
+void h_xml_parse(void) {
+    struct aws_allocator *alloc; const struct aws_xml_parser_options *options;
+    XGHOSTS(XF_PARSE);
+    int r = aws_xml_parse(alloc, options);
+    if (r == 0) CANARY("parsed"); else CANARY("error reported");
+}
+void h_load_node_decl(void) {
+    struct aws_xml_parser *parser; struct aws_byte_cursor *decl; struct aws_xml_node *node;
+    XGHOSTS(XF_DECL);
+    int r = s_load_node_decl(parser, decl, node);
+    if (r == 0) CANARY("declaration loaded"); else CANARY("invalid xml reported");
+}
+void h_get_attribute(void) {
+    const struct aws_xml_node *node; size_t i;
+    XGHOSTS(XF_ATTR);
+    struct aws_xml_attribute a = aws_xml_node_get_attribute(node, i);
+    CANARY("returned");
+}
+/* the NULL-with-zero-length document, concretely (the contracts above speak about a document OBJECT) */
+static int null_doc_cb(struct aws_xml_node *node, void *ud) { (void)node; (void)ud; __CPROVER_assert(0, "no element can be found in an empty document"); return 0; }
+void h_xml_parse_null_doc(void) {
+    XML_GHOST_RESET();
+    struct aws_allocator *alloc; __CPROVER_assume(alloc != NULL);
+    struct aws_xml_parser_options o = {.doc = {.ptr = NULL, .len = 0}, .on_root_encountered = null_doc_cb, .max_depth = nondet_size_t()};
+    int r = aws_xml_parse(alloc, &o);
+    __CPROVER_assert(r == AWS_OP_SUCCESS || r == AWS_OP_ERR, "result is 0 or -1");
+    __CPROVER_assert(r == AWS_OP_ERR ==> g_raise_count > 0, "-1 only with a registered error code");
+    CANARY("returned");
+}
+
+/* a callback that takes every legal action, checked against xml_cb_contract (DESIGN 4.6: the contract that cuts the
+ * recursion traverse -> callback -> traverse must cover what callbacks can do through the public API) */
+int xml_sample_callback(struct aws_xml_node *node, void *user_data) {
+    int choice = nondet_int();
+    if (choice == 0) { return nondet_bool() ? AWS_OP_SUCCESS : aws_raise_error(nondet_int() | 1); }
+    if (choice == 1) { struct aws_byte_cursor body; int r = aws_xml_node_as_body(node, nondet_bool() ? &body : NULL); return nondet_bool() ? r : AWS_OP_SUCCESS; }
+    { int r = aws_xml_node_traverse(node, xml_cb_contract, user_data); return nondet_bool() ? r : AWS_OP_SUCCESS; }
+}
+void h_callback_model(void) {
+    struct aws_xml_node *node; void *ud;
+    XGHOSTS(XF_CB); g_cb_room = true; /* re-allocation of the callback stack inside the callback is not modelled */
+    int r = xml_sample_callback(node, ud);
+    if (r == 0) CANARY("callback returned success"); else CANARY("callback returned an error");
 }
